@@ -472,6 +472,8 @@ func getArgsToFilesMap(fileArgs map[string]map[Nodable]struct{},
 func addFilesToArgsMappings(fpath string, debug bool, fqname string,
 	filesToArgs map[string]*vdrFileCache,
 	argToFiles map[string]map[string]struct{}) {
+	// fpath is an entry of the job's files directory.
+	realRoot, rootErr := filepath.EvalSymlinks(filepath.Dir(fpath))
 	if err := util.Walk(fpath, func(fpath string, info os.FileInfo, err error) error {
 		// We can't just short-circuit directories here, because
 		// for example an argument might refer to files/foo which
@@ -525,6 +527,18 @@ func addFilesToArgsMappings(fpath string, debug bool, fqname string,
 			util.LogInfo("storage",
 				"%s does not reference file\n%s",
 				fqname, fpath)
+		}
+		if info.IsDir() && rootErr == nil {
+			// A link to a directory which is not below this one is an
+			// entry of its own: what it points to is not ours to remove.
+			if li, err := os.Lstat(fpath); err == nil && li.Mode()&os.ModeSymlink != 0 {
+				if real, err := filepath.EvalSymlinks(fpath); err != nil ||
+					!pathIsInside(real, realRoot) {
+					// Only the link would go, not what it points to.
+					entry.size = li.Size()
+					return filepath.SkipDir
+				}
+			}
 		}
 		return nil
 	}); err != nil && err != filepath.SkipDir && !os.IsNotExist((err)) {
